@@ -244,6 +244,12 @@ SITES = [
     (UCORE, 'union_difference_into_lhs', 'std::set_difference(std::begin(rhs), std::end(rhs), std::begin(lhs), std::end(lhs), std::back_inserter(lhs));', 1),
     (UCORE, 'union_merge', 'std::inplace_merge(std::begin(lhs), std::begin(lhs)+mid, std::end(lhs));', 1),
     (FGH, 'getVariables_list_uses_union', 'set_union_inplace(retval, factor->variables_);', 1),
+    # ---- FactorGraph neighbour bookkeeping (FGCursor.nbLoop / mergeNeighbours / addAll / eraseAll / eraseVar)
+    (FGH, 'getFactor_per_variable', 'it->variables_ = variables; for (const auto a : variables) { auto & va = variableAdjacencies_[a]; va.factors.push_back(it); const auto mid = va.vNeighbors.size(); va.vNeighbors.reserve(mid + variables.size() - 1);', 1),
+    (FGH, 'getFactor_neighbour_loop', 'for (size_t i = 0, j = 0; i < variables.size(); ) { if (variables[i] == a) { ++i; } else if (j == mid || variables[i] < va.vNeighbors[j]) { va.vNeighbors.push_back(variables[i]); ++i; } else { if (variables[i] == va.vNeighbors[j]) ++i; ++j; } } std::inplace_merge(std::begin(va.vNeighbors), std::begin(va.vNeighbors)+mid, std::end(va.vNeighbors));', 1),
+    (FGH, 'erase_inactive_returns', 'auto & va = variableAdjacencies_[a]; if (!va.active) return;', 1),
+    (FGH, 'erase_from_neighbours', 'for (const auto aa : va.vNeighbors) { auto & vaa = variableAdjacencies_[aa]; vaa.vNeighbors.erase(std::find(std::begin(vaa.vNeighbors), std::end(vaa.vNeighbors), a)); }', 1),
+    (FGH, 'erase_clear', 'va.factors.clear(); va.vNeighbors.clear(); va.active = false; --activeVariables_;', 1),
     # ---- sequential_sorted_contains(v, elems), sequential_sorted_find, veccmp (CursorUtil.containsLoop / skipLess / veccmpLoop)
     (UCORE, 'contains_equal_size', 'assert(elems.size() <= v.size()); if (v.size() == elems.size()) return veccmp(v, elems) == 0;', 1),
     (UCORE, 'contains_loop', 'decltype(v.size()) i = 0, j = 0; while (j < elems.size()) { while (i < v.size() && v[i] < elems[j]) ++i; if (i == v.size() || v[i] > elems[j]) return false; ++i, ++j; } return j == elems.size();', 1),
